@@ -1,5 +1,9 @@
 #!/bin/sh
-# Build the harness (fast lane) from files on disk only.
+# Build the harnesses (fast lanes) from files on disk only. Every check rebuilds what it needs
+# anyway; this only warms the build caches.
 set -e
 cd "$(dirname "$0")"
-exec ./run --build-only
+./run --build-only
+for d in codecharness aioharness udpharness; do
+  (cd "$d" && CARGO_NET_OFFLINE=true cargo build --profile fast --offline >/dev/null 2>&1) || echo "note: $d did not pre-build (its check will report why)"
+done
